@@ -7,18 +7,22 @@ package thriftproto
 
 // C15: decoding never writes into a shared status
 //@ func (*tBinaryProto).binaryUnpack
-//@   property C15 C12
+//@   property C15 C12 C04
+//@   ensures[status-field-decoded] @C04 result == nil ==> as(m, type(*socket.message)).status != nil && as(m, type(*socket.message)).status.#fromWire
 //@   requires msgOwnStatus(as(m, type(*socket.message)))
 //@   requires[no-pending-refusal] @C12 !ghost.appendFailed
 //@   ensures[refusal-propagated] @C12 result == nil ==> !ghost.appendFailed
 //@ func (*tBinaryProto).Unpack
-//@   property C15 C12
+//@   property C15 C12 C04
+//@   ensures[status-field-decoded] @C04 result == nil ==> as(m, type(*socket.message)).status != nil && as(m, type(*socket.message)).status.#fromWire
 //@   requires msgOwnStatus(as(m, type(*socket.message)))
 //@   requires[no-pending-refusal] @C12 !ghost.appendFailed
 //@   ensures[refusal-propagated] @C12 result == nil ==> !ghost.appendFailed
 //@ func (*tStructProto).structUnpack
-//@   property C15
+//@   property C15 C04
+//@   ensures[status-field-decoded] @C04 result == nil ==> as(m, type(*socket.message)).status != nil && as(m, type(*socket.message)).status.#fromWire
 //@   requires msgOwnStatus(as(m, type(*socket.message)))
 //@ func (*tStructProto).Unpack
-//@   property C15
+//@   property C15 C04
+//@   ensures[status-field-decoded] @C04 result == nil ==> as(m, type(*socket.message)).status != nil && as(m, type(*socket.message)).status.#fromWire
 //@   requires msgOwnStatus(as(m, type(*socket.message)))
